@@ -111,6 +111,7 @@ type RawCfg struct {
 	Cubic    bool
 	SACK     bool // stack-side SACK enabled
 	RcvBuf   int
+	SndBuf   int // send buffer of the stack endpoint (0 = default)
 	RTTms    int    // peer answers this many virtual ms after receiving (0 = immediately)
 	Silent   int    // peer stays silent for this many timeouts at the start of the data phase
 	Close    string // none | shut (stack shuts down its write side after writing)
@@ -167,6 +168,8 @@ func ParseRawCfg(s string) RawCfg {
 			c.Cubic = v == "cubic"
 		case "rcvbuf":
 			c.RcvBuf = atoi()
+		case "sndbuf":
+			c.SndBuf = atoi()
 		case "rtt":
 			c.RTTms = atoi()
 		case "silent":
@@ -448,6 +451,9 @@ func newRawRun(cfg RawCfg, prefix []int) *rawRun {
 	}
 	if cfg.Cubic {
 		must(s.SetTransportProtocolOption(tcp.ProtocolNumber, tcp.CongestionControlOption("cubic")))
+	}
+	if cfg.SndBuf > 0 {
+		must(s.SetTransportProtocolOption(tcp.ProtocolNumber, tcp.SendBufferSizeOption{Min: 1, Default: cfg.SndBuf, Max: cfg.SndBuf * 4}))
 	}
 	if cfg.RcvBuf > 0 {
 		must(s.SetTransportProtocolOption(tcp.ProtocolNumber, tcp.ReceiveBufferSizeOption{Min: 1, Default: cfg.RcvBuf, Max: cfg.RcvBuf * 4}))
@@ -1333,6 +1339,7 @@ func rawJobsC01(tier string) []string {
 	add(base+",mss=24,w=72,pd=3x20,psack=1,sack=1,active=0,b=1", 2)
 	add(base+",mss=24,w=48,iss=4294967270,piss=2147483640,pd=2x20,b=1", 2)
 	add(base+",mss=536,w=700,pd=2x300,b=1", 2)
+	add(base+",mss=24,w=200+50,sndbuf=64,pd=20,b=1", 2) // writes larger than the free send buffer: partial acceptance
 	if tier == "thorough" {
 		add(base+",mss=24,w=72,pd=3x20,v6=1,mtu=1280,b=1", 2)
 		add(base+",mss=24,w=48,pd=2x20,b=2", 16)
